@@ -55,7 +55,7 @@ def tasks(tier):
     # Solver.reorder_particles (re-order every array, then update the
     # neighbour structures) is contracted in C05: re-proved here
     return ['refresh', 'bin', 'walk', 'copy', 'apply', 'canary',
-            'dep:C05:reorder']
+            'dep:C05:reorder', 'dep:C06:align']
 
 
 def carr(name, length=None, elem='int'):
